@@ -182,7 +182,7 @@ PROPS['C12'] = {
 }
 
 _AGENT_TRUST = ['vstd specifications of BTreeMap (insert/remove/get/get_mut/contains_key) and HashSet (insert/contains) with the key-model axioms for TransactionId (derived Ord) and SocketAddr',
-                'Instant/Duration as an integer nanosecond axis (shims/time.rs); cross-checked against real Timespec arithmetic by KX k06_request_poll (thorough)',
+                'Instant/Duration as an integer nanosecond axis (shims/time.rs: Instant + Duration, Duration * u32, Duration + Duration, as_millis, Duration::ZERO, 2u32.pow(e) for e < 32 are the mathematical operations within stated bounds); cross-checked against real Timespec arithmetic by KX k06_request_poll (thorough) and by BX on the configuration grid',
                 'dependency stand-ins (shims/deps_agent.rs): MessageBuilder::{build,transaction_id,has_class,has_attribute}, Message::{is_response,transaction_id,validate_integrity} are uninterpreted - the agent is verified for whatever they return',
                 'DataSlice::to_owned copies the bytes (external_body: Box<[u8]>::from(&[u8]) has no vstd spec); tracing macros dropped (R1)']
 _AGENT_FNS_ALL = None
@@ -202,15 +202,17 @@ PROPS['C05'] = {
 }
 PROPS['C06'] = {
     'level': 'exploration',
-    'vx': [{'unit': 'agent', 'functions': ['StunRequestState :: poll', 'StunRequestState :: new', 'cancel_retransmissions', 'impl StunAgent :: send', 'mut_request_state', 'theorem_default_schedule_numbers']}],
+    'vx': [{'unit': 'agent', 'functions': ['StunRequestState :: poll', 'StunRequestState :: new', 'cancel_retransmissions', 'impl StunAgent :: send', 'mut_request_state', 'theorem_default_schedule_numbers', 'configure_timeout', 'lemma_pow2_le', 'lemma_pow2_8', 'lemma_mul_bound', 'lemma_geo_step']}],
     'kx': ['k06_request_poll'],
     'bx': ['c06'],
-    'rule': 'Verus VCs of StunRequestState::{new,poll} for schedules of any length; BX for configure_timeout and the agent-level minimum.',
+    'rule': 'Verus VCs of StunRequestState::{new,poll} for schedules of any length and of StunRequestMut::configure_timeout (rule R11); BX for the agent-level minimum.',
     'proved': ['StunRequestState::new: UDP schedule [500,1000,2000,4000,8000,16000] + 8000 ms, TCP [] + 39500 ms',
                'poll: WaitUntil(last_send + schedule[i]) iff now is earlier, state unchanged (so polling early again gives the same t); due => SendData with last_send := now, i := i+1; past last_send + last_timeout after the final transmission => TimedOut; nothing transmitted once send_cancelled',
                'cancel_retransmissions sets exactly send_cancelled of that transaction',
                'theorem_default_schedule_numbers: with the defaults that new installs and the due rule of poll, on-time service transmits at 0, 0.5, 1.5, 3.5, 7.5, 15.5, 31.5 s and times out at 39.5 s; each interval doubles'],
-    'bounded': ['configure_timeout (iterator map/fold over Duration): BX exhaustive over rto x retransmits 0..=8 x last timeout grid', 'StunAgent::poll minimum over transactions / event at t (incl. the generic law: after WaitUntil(t) an earlier poll repeats t without an event, a poll at or after t yields one): BX with 1..3 concurrent transactions, exhaustive small-scope histories + random ones'],
+    'proved_extra': ['(rule R11: `(0..retransmits).map(..).collect()` and `.fold(..)` replaced by their defining loops) StunRequestMut::configure_timeout for rto <= 60 s, retransmits <= 8, last timeout <= 60 s: UDP schedule of exactly `retransmits` entries, the i-th being initial_rto * 2^i in whole milliseconds, final timeout = last_retransmit_timeout; TCP: empty schedule and timeout = last_retransmit_timeout + initial_rto * (2^retransmits - 1); nothing else of the transaction (position in the schedule, last transmission instant, flags, message, addresses) and no other transaction changes; Duration arithmetic through trusted axioms (shims/time.rs)',
+                     'poll is verified without any bound on the schedule position, so also for a transaction whose schedule was shortened below its position by configure_timeout'],
+    'bounded': ['configure_timeout: also BX exhaustive over rto x retransmits 0..=8 x last timeout grid (cross-check of the Duration axioms)', 'StunAgent::poll minimum over transactions / event at t (incl. the generic law: after WaitUntil(t) an earlier poll repeats t without an event, a poll at or after t yields one): BX with 1..3 concurrent transactions, exhaustive small-scope histories + random ones'],
     'trusted': _AGENT_TRUST + _KX_TRUST,
 }
 PROPS['C07'] = {
@@ -320,7 +322,7 @@ LEVEL_TEXT = {
  'C03': "Exploration: the builder side is under Verus contracts - write_into writes header + padded TLVs in order for lists of any length (per-attribute writers proved under C12), every guarded operation keeps the ordering grammar, the sealing workers append the CRC / HMAC of build() with the adjusted length field - and the composition theorems show that these bytes satisfy wf_message (so the verified parser accepts them), have the stated length properties, and expose exactly the builder's attributes in order with their types and value bytes. byte_len / build (iterator map/sum) and the builder query helpers (iterator any/find) are proved too since rule R11 (adaptor chains replaced by their defining loops). What remains assumed or bounded: the crypto crates, clone(), and typed-value equality where a decoder is outside the verifier (UNKNOWN-ATTRIBUTES) - decided by random builder programs against an independent serialiser with independent HMAC/CRC; hence exploration.",
  'C04': "Proof: `Message::validate_integrity` is verified for every accepted message and every credential against the RFC 8489 s14.5/14.6 specification (which exposed attribute is checked, HMAC input = prefix with the length field set to the end of that attribute, truncated SHA-256 lengths, MissingAttribute) with HMAC/MD5 as uninterpreted functions; the builder side (add_message_integrity appends the HMAC of build() with the adjusted length field; the sealed message meets exactly the premises of validate_integrity's Ok clauses) is proved as well. That the hmac/sha crates compute those functions, the key derivation (String concatenation: outside the verifier) and tamper-evidence on concrete messages are bounded (independent HMAC-SHA1/SHA256/MD5 implementation).",
  'C05': "Exploration: whole-view postconditions of send / handle_stun / take_outstanding_request / request_transaction / cancel / StunRequestState::poll and the exactly-once theorem over them are proved by Verus; the one link that is not (StunAgent::poll's `values_mut` loop, which turns a per-request verdict into removal) is decided by the bounded stand-in stepping the real agent against an abstract agent - so the property as a whole is claimed at exploration.",
- 'C06': "Exploration: the per-request schedule (StunRequestState::new defaults and poll for schedules of any length and all instants) is proved by Verus; configure_timeout (iterator map/fold over Duration) and the agent-level minimum over transactions are bounded (exhaustive configuration grid driven by on-time polls, random histories with early/exact/late polls at microsecond resolution).",
+ 'C06': "Exploration: the per-request schedule (StunRequestState::new defaults and poll for schedules of any length and all instants) is proved by Verus; configure_timeout is proved as well for the property's configuration range (rule R11 replaces `(0..n).map(..).collect()` / `.fold(..)` by their defining loops; Duration arithmetic through trusted axioms): exactly `retransmits` entries initial_rto*2^i, the TCP sum, nothing else changed. The agent-level minimum over transactions (StunAgent::poll's values_mut loop) is bounded (exhaustive small-scope histories, random histories with early/exact/late polls at microsecond resolution) - hence exploration.",
  'C07': "Proof: handle_stun's postcondition (delivered => outstanding and, if the request was sealed, remote credentials set and validate_integrity Ok; otherwise Drop with the whole abstract state unchanged) and request_had_credentials <=> builder has an integrity attribute are verified by Verus for all inputs; validate_integrity itself is C04. End-to-end with real HMACs is bounded.",
  'C08': "Exploration: decode side proved - 14 typed decoders in Verus for value strings of ANY length (UTF-8 via vstd::utf8), 5 in Kani (complete); encode side proved for to_raw/length of the string types and the in-place writers of 15 types (C12). Still bounded only: UNKNOWN-ATTRIBUTES decoder (chunks_exact: no vstd specification, and the ghost-iterator traits cannot be implemented for a std type from outside vstd), the &str constructors - hence exploration.",
  'C09': "Proof: an accepted buffer with a FINGERPRINT at offset o satisfies value == crc32(bytes[..o] with length field o+8-20) ^ 0x5354554e and o+8 == len (clause fp_ok of wf_message, verified for all buffers); XOR constant by Kani for all 2^32 values; the builder side (add_fingerprint appends crc32 of build() with the length field + 8, xor the constant; the sealed serialisation satisfies fp_ok and is accepted by the parser) is proved, build() included (rule R11). That Fingerprint::compute is CRC-32/ISO-HDLC and the corruption sweeps are bounded.",
